@@ -252,7 +252,16 @@ def plain_fails(case):
         elif name in ('sum', 'prod', 'real', 'imag'):
             got, want = getattr(algopy, name)(a), getattr(np, name)(a)
         elif name in ('zeros', 'ones'):
-            got, want = getattr(algopy, name)((2, 3), dtype=float), getattr(np, name)((2, 3), dtype=float)
+            # every way NumPy lets the caller name a dtype (type object, NumPy scalar type, dtype object, string), and none
+            dts = {'float': float, 'int': int, 'complex': complex, 'np.float32': np.float32, 'dtype-f4': np.dtype('f4'), 'str-f8': 'f8',
+                   'str-int32': 'int32', 'str-complex': 'complex128'}
+            sh = [(2, 3), 3, (0,), [2, 2]][int(1000 * a[0, 0]) % 4]
+            for dn, dt in sorted(dts.items()):
+                got, want = getattr(algopy, name)(sh, dtype=dt), getattr(np, name)(sh, dtype=dt)
+                if isinstance(got, UTPM) or np.asarray(got).dtype != want.dtype or not np.array_equal(got, want):
+                    return 'plain-%s: algopy.%s(%s, dtype=%s) is not what numpy.%s returns (dtype %s instead of %s)' % (
+                        name, name, sh, dn, name, np.asarray(got).dtype, want.dtype)
+            got, want = getattr(algopy, name)(sh), getattr(np, name)(sh)
         elif name == 'logdet':
             got, want = algopy.logdet(a), np.linalg.slogdet(a)[1]
         else:
@@ -262,7 +271,7 @@ def plain_fails(case):
     gs = list(got) if isinstance(got, tuple) else [got]
     ws = list(want) if isinstance(want, tuple) else [want]
     for g, w in zip(gs, ws):
-        if isinstance(g, UTPM) or not np.array_equal(np.asarray(g), np.asarray(w)):
+        if isinstance(g, UTPM) or not np.array_equal(np.asarray(g), np.asarray(w)) or (name in ('zeros', 'ones') and np.asarray(g).dtype != np.asarray(w).dtype):
             return 'plain-%s: algopy.%s(ndarray) differs from the NumPy function of the same name' % (name, name)
     return None
 
